@@ -19,7 +19,8 @@ ASSUMPTIONS = ["stub: black.format_str -> identity inside cdd.shared.emit.file u
 
 _ROOT = tempfile.mkdtemp(prefix="chx_c20_")
 atexit.register(shutil.rmtree, _ROOT, True)
-PKG = "fxpkg%d" % os.getpid()
+OUTER = "fxo%d" % os.getpid()
+PKG = OUTER + ".inner"  # a two-segment module: exmod splits it into module_root (the outer package) and the sub-module it exposes
 _SRC = os.path.join(_ROOT, "src")
 FILES = {
     "__init__.py": "from {p}.mod_a import A\nfrom {p}.sub.mod_b import b_fn\n\n__all__ = ['A', 'b_fn']\n",
@@ -27,8 +28,10 @@ FILES = {
     "sub/__init__.py": "from {p}.sub.mod_b import b_fn\n\n__all__ = ['b_fn']\n",
     "sub/mod_b.py": "def b_fn(a=5):\n    \"\"\"\n    A b.\n\n    :param a: the a\n    :type a: ```int```\n\n    :return: res\n    :rtype: ```int```\n    \"\"\"\n    return a\n\n\n__all__ = ['b_fn']\n",
 }
+os.makedirs(os.path.join(_SRC, OUTER), exist_ok=True)
+open(os.path.join(_SRC, OUTER, "__init__.py"), "w").close()
 for _rel, _text in FILES.items():
-    _p = os.path.join(_SRC, PKG, _rel)
+    _p = os.path.join(_SRC, OUTER, "inner", _rel)
     os.makedirs(os.path.dirname(_p), exist_ok=True)
     with open(_p, "w") as _f:
         _f.write(_text.format(p=PKG))
@@ -101,7 +104,7 @@ class FsMonitor:
         return False
 
 
-def run_exmod(emit, dry_run, recursive, no_word_wrap, blacklist_sub, sql_sub, preexisting):
+def run_exmod(emit, dry_run, recursive, no_word_wrap, blacklist_sub, sql_sub, preexisting, bl_root=False, wl=0):
     import contextlib
     import io
 
@@ -120,7 +123,8 @@ def run_exmod(emit, dry_run, recursive, no_word_wrap, blacklist_sub, sql_sub, pr
     try:
         with FsMonitor() as mon, contextlib.redirect_stdout(io.StringIO()), contextlib.redirect_stderr(io.StringIO()):
             try:
-                ex.exmod(emit_name=emit, module=PKG, blacklist=["sub"] if blacklist_sub else [], whitelist=[], output_directory=out,
+                ex.exmod(emit_name=emit, module=PKG, blacklist=(["sub"] if blacklist_sub else []) + ([PKG] if bl_root else []),
+                         whitelist=([PKG] if wl == 1 else (["other.mod"] if wl == 2 else [])), output_directory=out,
                          target_module_name="gold", mock_imports=True, emit_sqlalchemy_submodule=sql_sub, extra_modules=None,
                          no_word_wrap=True if no_word_wrap else None, recursive=recursive, dry_run=dry_run)
                 err = None
@@ -143,6 +147,11 @@ def run_exmod(emit, dry_run, recursive, no_word_wrap, blacklist_sub, sql_sub, pr
             return "real run modified the source package: %s %s" % (op, p)
     if err is None and not log:
         return "real run wrote nothing"
+    root_out = [p for op, p in log if p == os.path.join(out_real, "__init__.py") or p == os.path.join(out_real, "gold") or p.startswith(os.path.join(out_real, "gold") + os.sep)]
+    if (bl_root or wl == 2) and root_out:
+        return "the exposed module is %s but produced output: %s" % ("blacklisted" if bl_root else "not in the whitelist", root_out[0].replace(out_real, "<out>"))
+    if wl == 2 and [p for op, p in log if p != out_real]:
+        return "nothing is whitelisted but the run produced output"
     if blacklist_sub:
         for op, p in log:
             if p == os.path.join(out_real, "sub") or p.startswith(os.path.join(out_real, "sub") + os.sep):
@@ -187,8 +196,8 @@ def dry_after_real(emit, rec1, rec2, sql_sub):
 
 
 def _mk(emit):
-    def body(dry_run, recursive, no_word_wrap, blacklist_sub, sql_sub, preexisting):
-        return run_exmod(emit, dry_run, recursive, no_word_wrap, blacklist_sub, sql_sub, preexisting)
+    def body(dry_run, recursive, no_word_wrap, blacklist_sub, sql_sub, preexisting, bl_root=False, wl=0):
+        return run_exmod(emit, dry_run, recursive, no_word_wrap, blacklist_sub, sql_sub, preexisting, bl_root, wl)
 
     body.__name__ = "exmod_" + emit
     return body
@@ -214,3 +223,10 @@ for _e in ("class", "sqlalchemy_table", "sqlalchemy", "sqlalchemy_hybrid", "func
        tier="quick" if _e in ("class", "sqlalchemy_table") else "thorough", T=1500, tpath=600, funcs=FUNCS,
        bound="history of two runs on the same output directory: a real run (recursive on/off) then a dry run (recursive on/off), emit kind %s%s: the dry run reaches no mutator"
              % (_e, ", emit_sqlalchemy_submodule on/off" if _e.startswith("sqlalchemy") else ""))((lambda e: (lambda rec1, rec2, sql_sub: dry_after_real(e, rec1, rec2, sql_sub)))(_e))
+
+
+for _e in ("class", "function", "sqlalchemy_table"):
+    ob("C20", "P3.lists.%s" % _e, {"dry_run": R(0, 0), "recursive": BOOL, "no_word_wrap": R(0, 0), "blacklist_sub": R(0, 0), "sql_sub": R(0, 0), "preexisting": R(0, 0),
+                                  "bl_root": BOOL, "wl": R(0, 2)}, tier="quick" if _e == "class" else "thorough", T=1500, tpath=600, funcs=FUNCS,
+       bound="REAL run, emit kind %s: the exposed module itself in the blacklist or not, whitelist empty / naming it / naming another module, recursive on/off "
+             "(solver-enumerated): a blacklisted or non-whitelisted module produces no output, also when it is in both lists" % _e)(_mk(_e))
